@@ -27,6 +27,8 @@ type topo struct {
 	// Answerable: an ideal resolver with unlimited budget finds an answer.
 	Answerable bool
 	Servers    int
+	// Heal, when set, repairs the world (the `l3 heal` op): what was unreachable becomes reachable
+	Heal func()
 	// DeadAddrs: some advertised nameserver addresses are unreachable, so connection failures of
 	// whole (partial) server lists are genuine, shareable evidence in this world
 	DeadAddrs bool
@@ -38,10 +40,10 @@ type topo struct {
 	Pad int
 }
 
-var families = []string{"cname", "dname", "nscycle", "deep", "lame", "hugens", "manysig", "updown"}
+var families = []string{"cname", "dname", "nscycle", "deep", "lame", "hugens", "manysig", "updown", "refresh"}
 
 // variants per family (see buildTopo)
-var familyVariants = map[string]int{"cname": 2, "dname": 2, "nscycle": 2, "deep": 2, "lame": 6, "hugens": 3, "manysig": 3, "updown": 2}
+var familyVariants = map[string]int{"cname": 2, "dname": 2, "nscycle": 2, "deep": 2, "lame": 6, "hugens": 3, "manysig": 3, "updown": 2, "refresh": 2}
 
 func buildTopo(family string, n, variant int, signed bool) *topo {
 	w := l3.NewWorld(signed)
@@ -289,6 +291,44 @@ func buildTopo(family string, n, variant int, signed bool) *topo {
 		t.Answerable = true
 		t.Honest = false
 		t.Pad = n
+	case "refresh":
+		// A delegation that goes bad and is repaired: ref.test. is served by n glueless out-of-zone
+		// nameserver names (ns<i>.far.test.) whose addresses are all dead, so every lookup at the cached
+		// delegation ends in network errors; after the fifth such failure the resolver re-resolves every
+		// nameserver name (Resolver.checkHosts). Heal() points the names (variant 0: all of them,
+		// variant 1: only the last one) at the zone's real server.
+		if n < 2 {
+			n = 2
+		}
+		if n > 12 {
+			n = 12
+		}
+		far := w.AddZone("far.test.", zo())
+		hosts := make([]string, n)
+		for i := range hosts {
+			hosts[i] = fmt.Sprintf("r%d.far.test.", i) // (ns1.far.test. is far.test.'s own nameserver)
+			far.Add(fmt.Sprintf("%s 300 IN A 198.18.7.%d", hosts[i], 1+i))
+		}
+		o := zo()
+		o.NSHosts = hosts
+		o.NoGlue = true
+		o.NSTTL = 86400
+		ref := w.AddZone("ref.test.", o)
+		ref.Add("www.ref.test. 300 IN A 192.0.2.87")
+		realIP := ref.Servers[0].IP
+		t.Heal = func() {
+			for i, h := range hosts {
+				if variant == 1 && i != n-1 {
+					continue
+				}
+				far.Remove(h, dns.TypeA)
+				far.Add(fmt.Sprintf("%s 300 IN A %s", h, realIP))
+			}
+		}
+		t.QName = "www.ref.test."
+		t.Answerable = true
+		t.Honest = false
+		t.DeadAddrs = true
 	case "updown":
 		// An authority that plays with qname minimisation: minimised probes below up.test. are answered
 		// "no zone cut here" (NODATA + SOA) until the probe is `deepAt` labels long, then the resolver is
